@@ -15,7 +15,8 @@ for prop in props:
     r = subprocess.run(['/verif/lib/with_patch.sh', os.path.join(d, 'patch.diff'), '2400', './check', prop, '--tier', tier],
                        cwd='/verif', stdout=subprocess.PIPE, stderr=subprocess.PIPE, text=True)
     sigs = re.findall(r'^\s+(C\d+/\S+): (.*)$', r.stdout, re.M)
-    res[prop + ':' + tier] = {
+    seed = os.environ.get('VERIF_SEED', '1')
+    res[prop + ':' + tier + ('' if seed == '1' else ':seed' + seed)] = {
         'exit': r.returncode,
         'caught': r.returncode == 1,
         'signatures': [s[0] for s in sigs][:12],
@@ -23,7 +24,7 @@ for prop in props:
         'summary': r.stdout.splitlines()[0] if r.stdout else r.stderr[-300:],
         'wall_s': round(time.time() - t, 1),
     }
-    print(name, prop, tier, 'exit', r.returncode, [s[0] for s in sigs][:4])
+    print(name, prop, tier, 'seed', seed, 'exit', r.returncode, [s[0] for s in sigs][:4])
 json.dump(res, open(res_path, 'w'), indent=1)
 # /repo must be clean again
 st = subprocess.run(['git', '-C', '/repo', 'status', '--porcelain'], stdout=subprocess.PIPE, text=True).stdout
